@@ -131,16 +131,6 @@ macro_rules! window {
         }
     };
 }
-window!(c06_win_00, 0, 2, 0);
-window!(c06_win_05, 5, 2, 0);
-window!(c06_win_06, 6, 3, 0);
-window!(c06_win_18, 18, 2, 0);
-window!(c06_win_35, 35, 3, 0);
-window!(c06_win_38, 38, 2, 0);
-window!(c06_win_40, 40, 3, 0);
-window!(c06_win_44, 44, 3, 0);
-window!(c06_win_47, 47, 3, 0);
-window!(c06_win_50, 50, 2, 1);
 
 /// C05 parse(write(P)) on the five trailing fields, one field SHAPE per obligation (fixed text length), all
 /// VALUES of that shape: NR = number of castling rights (0 => "-"), EP = 1 if an en-passant square is present,
@@ -187,14 +177,6 @@ macro_rules! parse_tail {
         }
     };
 }
-parse_tail!(c05_parse_tail_r0e0d4, 0, 0, 4);
-parse_tail!(c05_parse_tail_r1e0d4, 1, 0, 4);
-parse_tail!(c05_parse_tail_r2e1d4, 2, 1, 4);
-parse_tail!(c05_parse_tail_r3e1d4, 3, 1, 4);
-parse_tail!(c05_parse_tail_r4e0d4, 4, 0, 4);
-parse_tail!(c05_parse_tail_r4e1d1, 4, 1, 1);
-parse_tail!(c05_parse_tail_r0e1d2, 0, 1, 2);
-parse_tail!(c05_parse_tail_r2e0d3, 2, 0, 3);
 
 /// one rank (ranks 2..7 by instantiation) whose occupancy PATTERN is fixed and whose pieces are arbitrary:
 /// parse_fen(canonical text) == Ok(board with exactly this placement) or a validation error when the position is
@@ -249,10 +231,6 @@ macro_rules! parse_rank {
         }
     };
 }
-parse_rank!(c05_parse_rank_full, 3, 0xffu8);
-parse_rank!(c05_parse_rank_gap_lo, 4, 0b1111_1000u8);
-parse_rank!(c05_parse_rank_gap_hi, 2, 0b0011_1111u8);
-parse_rank!(c05_parse_rank_gaps, 5, 0b1010_0101u8);
 
 // ---------------------------------------------------------------- C05: write(P) == canonical text
 struct Buf {
@@ -306,24 +284,6 @@ fn board_of(p: &r::P) -> Board {
         raw,
     }
 }
-/// Display == canonical text for the fixed placement and ALL values of side / rights / e.p. (clocks concrete):
-/// KQkq subset in that order or '-', e.p. square on the capture rank (6 with White to move, 3 with Black)
-#[kani::proof]
-#[kani::unwind(97)]
-fn c05_write_fields() {
-    use core::fmt::Write;
-    let mut p = base_position();
-    p.turn = kani::any();
-    p.rights = kani::any();
-    p.ep = kani::any();
-    kani::assume(p.turn <= 1 && p.rights < 16 && p.ep <= 8);
-    let b = board_of(&p);
-    let mut w = Buf { b: [0; f::FEN_MAX], n: 0 };
-    assert!(write!(w, "{}", b).is_ok(), "VERIF Display failed");
-    let mut o = f::Out::new();
-    f::fen_spec(&p, &mut o);
-    assert!(same_text(&w, &o), "VERIF Display != canonical FEN: turn {} rights {} ep {}", p.turn, p.rights, p.ep);
-}
 /// Display == canonical text for ALL 4-digit / 1-digit clock values (other fields concrete)
 macro_rules! write_clocks {
     ($name:ident, $lo:expr, $hi:expr) => {
@@ -344,8 +304,6 @@ macro_rules! write_clocks {
         }
     };
 }
-write_clocks!(c05_write_clocks_d4, 1000, 9999);
-write_clocks!(c05_write_clocks_d1, 0, 9);
 /// Display with one rank of fixed occupancy pattern and arbitrary pieces, other ranks as in the kings-only board
 macro_rules! write_rank {
     ($name:ident, $rank:expr, $pattern:expr) => {
@@ -375,9 +333,6 @@ macro_rules! write_rank {
         }
     };
 }
-write_rank!(c05_write_rank_full, 3, 0xffu8);
-write_rank!(c05_write_rank_gaps, 5, 0b1010_0101u8);
-write_rank!(c05_write_rank_gap_hi, 1, 0b0011_1110u8);
 
 /// constructors agree: Board::standard(), the builder fed with the standard placement, and the parser on the
 /// standard FEN give field-for-field identical boards (ground)
@@ -411,83 +366,13 @@ fn c05_constructors() {
 
 /// vacuity guard
 #[kani::proof]
-#[kani::unwind(56)]
+#[kani::unwind(30)]
 fn c06_fen_cover() {
-    let mut buf = [0u8; BASE_LEN];
-    let mut i = 0;
-    while i < BASE_LEN {
-        buf[i] = BASE[i];
-        i += 1;
-    }
-    buf[38] = kani::any();
-    buf[44] = kani::any();
-    buf[45] = kani::any();
-    let r = parse_fen(&buf);
-    kani::cover!(r.is_ok() && buf[38] == b'b');
+    let mut s = *b"k7/8/8/8/8/8/8/K7 w - - 0 1";
+    s[18] = kani::any();
+    let r = parse_fen(&s);
+    kani::cover!(r.is_ok() && s[18] == b'b');
     kani::cover!(matches!(r, Err(ParseFenError::InvalidTurn(_))));
-    kani::cover!(matches!(r, Err(ParseFenError::InvalidEnpassant { .. })));
-}
-
-// single-byte windows (cost experiments / C06 windows)
-window!(c06_win1_00, 0, 1, 0);
-window!(c06_win1_38, 38, 1, 0);
-window!(c06_win1_40, 40, 1, 0);
-window!(c06_win1_45, 45, 1, 0);
-window!(c06_win1_47, 47, 1, 0);
-window!(c06_win1_51, 51, 1, 0);
-/// Debug for CastleRights (used by Display for Board): all 16 values -> "KQkq" subset in this order, or "-"
-#[kani::proof]
-#[kani::unwind(10)]
-fn c05_rights_text() {
-    use core::fmt::Write;
-    let bits: u8 = kani::any();
-    kani::assume(bits < 16);
-    let cr = rights_from_bits(bits);
-    let mut w = Buf { b: [0; f::FEN_MAX], n: 0 };
-    assert!(write!(w, "{:?}", cr).is_ok(), "VERIF Debug for CastleRights failed");
-    let mut want = [0u8; 4];
-    let mut n = 0;
-    if bits & r::R_WK != 0 { want[n] = b'K'; n += 1; }
-    if bits & r::R_WQ != 0 { want[n] = b'Q'; n += 1; }
-    if bits & r::R_BK != 0 { want[n] = b'k'; n += 1; }
-    if bits & r::R_BQ != 0 { want[n] = b'q'; n += 1; }
-    if n == 0 { want[0] = b'-'; n = 1; }
-    assert!(w.n == n && w.b[0] == want[0] && (n < 2 || w.b[1] == want[1]) && (n < 3 || w.b[2] == want[2]) && (n < 4 || w.b[3] == want[3]), "VERIF castling rights text for {}", bits);
-}
-
-#[kani::proof]
-#[kani::unwind(56)]
-fn xp_lit_51() {
-    let mut s = *b"r3k2r/8/8/pppppppp/PPPPPPPP/8/8/R3K2R w KQkq - 10 20";
-    s[51] = kani::any();
-    match parse_fen(&s) {
-        Ok(b) => assert!(b.validate().is_ok()),
-        Err(_) => (),
-    }
-}
-#[kani::proof]
-#[kani::unwind(56)]
-fn xp_lit_00() {
-    let mut s = *b"r3k2r/8/8/pppppppp/PPPPPPPP/8/8/R3K2R w KQkq - 10 20";
-    s[0] = kani::any();
-    s[1] = kani::any();
-    match parse_fen(&s) {
-        Ok(b) => assert!(b.validate().is_ok()),
-        Err(_) => (),
-    }
-}
-#[kani::proof]
-#[kani::unwind(56)]
-fn xp_lit_tail() {
-    let mut s = *b"r3k2r/8/8/pppppppp/PPPPPPPP/8/8/R3K2R w KQkq - 10 20";
-    s[38] = kani::any();
-    s[45] = kani::any();
-    s[47] = kani::any();
-    s[48] = kani::any();
-    match parse_fen(&s) {
-        Ok(b) => assert!(b.validate().is_ok()),
-        Err(_) => (),
-    }
 }
 
 // ---------------------------------------------------------------- ground round trips (one canonical FEN each)
@@ -534,3 +419,42 @@ ground!(c05_ground_rights_kq, b"r3k2r/8/8/8/8/8/8/R3K2R b Kq - 100 9999");
 ground!(c05_ground_rights_qk, b"r3k2r/8/8/8/8/8/8/R3K2R w Qk - 9 10");
 ground!(c05_ground_runs, b"1k6/2p5/3n4/4b3/5r2/6q1/7P/K7 b - - 1234 567");
 ground!(c05_ground_check, b"4k3/8/8/8/8/8/4r3/4K2R w K - 3 40");
+
+ground!(c05_ground_r00, b"r3k2r/8/8/8/8/8/8/R3K2R w - - 0 1");
+ground!(c05_ground_r01, b"r3k2r/8/8/8/8/8/8/R3K2R w K - 0 1");
+ground!(c05_ground_r02, b"r3k2r/8/8/8/8/8/8/R3K2R w Q - 0 1");
+ground!(c05_ground_r03, b"r3k2r/8/8/8/8/8/8/R3K2R w KQ - 0 1");
+ground!(c05_ground_r04, b"r3k2r/8/8/8/8/8/8/R3K2R w k - 0 1");
+ground!(c05_ground_r05, b"r3k2r/8/8/8/8/8/8/R3K2R w Kk - 0 1");
+ground!(c05_ground_r07, b"r3k2r/8/8/8/8/8/8/R3K2R w KQk - 0 1");
+ground!(c05_ground_r08, b"r3k2r/8/8/8/8/8/8/R3K2R w q - 0 1");
+ground!(c05_ground_r10, b"r3k2r/8/8/8/8/8/8/R3K2R w Qq - 0 1");
+ground!(c05_ground_r11, b"r3k2r/8/8/8/8/8/8/R3K2R w KQq - 0 1");
+ground!(c05_ground_r12, b"r3k2r/8/8/8/8/8/8/R3K2R w kq - 0 1");
+ground!(c05_ground_r13, b"r3k2r/8/8/8/8/8/8/R3K2R w Kkq - 0 1");
+ground!(c05_ground_r14, b"r3k2r/8/8/8/8/8/8/R3K2R w Qkq - 0 1");
+
+/// totality on a single-byte window of a short canonical text: every value of the byte at a fixed offset;
+/// parse_fen returns, and a board it accepts passes validate()
+macro_rules! window1 {
+    ($name:ident, $off:expr) => {
+        #[kani::proof]
+        #[kani::unwind(30)]
+        fn $name() {
+            let mut s = *b"k7/8/8/8/8/8/8/K7 w - - 0 1";
+            s[$off] = kani::any();
+            match parse_fen(&s) {
+                Ok(b) => assert!(b.validate().is_ok(), "VERIF parse_fen returned a board that validate() rejects"),
+                Err(_) => (),
+            }
+        }
+    };
+}
+window1!(c06_w_00, 0);
+window1!(c06_w_02, 2);
+window1!(c06_w_17, 17);
+window1!(c06_w_18, 18);
+window1!(c06_w_20, 20);
+window1!(c06_w_22, 22);
+window1!(c06_w_24, 24);
+window1!(c06_w_26, 26);
